@@ -302,6 +302,28 @@ func (fx *fnExec) goBinop(op token.Token, a, b SV, opTyp types.Type, bTyp types.
 			}
 			return Sc{app(SInt, "mod", x, y), opTyp}
 		}
+		// truncated division with a symbolic divisor: name quotient and remainder and give the solver the linear
+		// consequences it needs most (all of them theorems of q = trunc(x/y), r = x - y*q)
+		if _, lit := isNumeral(y); !lit {
+			q := fx.freshConst("quo", SInt)
+			r := fx.freshConst("rem", SInt)
+			zero := intLit64(0)
+			ge := func(a, b Term) Term { return app(SBool, ">=", a, b) }
+			lt := func(a, b Term) Term { return app(SBool, "<", a, b) }
+			gt := func(a, b Term) Term { return app(SBool, ">", a, b) }
+			fx.assume(tEq(q, app(SInt, "tdiv", x, y)))
+			fx.assume(tEq(r, app(SInt, "trem", x, y)))
+			fx.assume(tEq(x, app(SInt, "+", app(SInt, "*", y, q), r)))
+			fx.assume(tImp(tAnd(ge(x, zero), gt(y, zero)), tAnd(ge(r, zero), lt(r, y), ge(q, zero), app(SBool, "<=", q, x),
+				tImp(lt(x, y), tAnd(tEq(r, x), tEq(q, zero))),
+				tImp(tAnd(ge(x, y), lt(x, app(SInt, "*", intLit64(2), y))), tAnd(tEq(r, app(SInt, "-", x, y)), tEq(q, intLit64(1)))),
+				tEq(r, app(SInt, "mod", x, y)), tEq(q, app(SInt, "div", x, y)))))
+			fx.assume(tImp(tAnd(lt(x, zero), gt(y, zero)), tAnd(app(SBool, "<=", r, zero), gt(r, app(SInt, "-", y)))))
+			if op == token.QUO {
+				return arith(q)
+			}
+			return Sc{r, opTyp}
+		}
 		if op == token.QUO {
 			return arith(app(SInt, "tdiv", x, y))
 		}
